@@ -92,6 +92,8 @@ SPECS = [
          doc="the same string on two cells mixed with a c-string (pool appended to the data)"),
     dict(name="mixed_be", prop="C01", endian="BE", data=[0] * 8, strings={0: "S"}, cstrings={4: "C"},
          doc="one string and one c-string, big-endian"),
+    dict(name="cstr_eq_le", prop="C01", endian="LE", data=[0] * 12, strings={4: "N", 8: "F"}, cstrings={0: "N"}, labels={4: ["N"]},
+         doc="a c-string whose text equals a string and a label name (pool offsets and text-section offsets are separate)"),
     dict(name="dup_label_le", prop="C02", endian="LE", data=[0] * 8, labels={0: ["A"], 4: ["A"]},
          doc="the same label name on two addresses (stored once in the text section)"),
     dict(name="dup_label_be", prop="C02", endian="BE", data=[0] * 8, labels={0: ["x"], 4: ["x"]}, strings={0: "A", 4: "B"},
